@@ -326,7 +326,7 @@ static void d_entry(int i, spifopt_t *e)
     };
     *e = t[i];
 }
-static void d_desc(uint64_t idx, void *ctx, char *b, size_t n) { (void) ctx; if (idx >= 80) { if (idx >= 86) { uint64_t k = idx - 86; snprintf(b, n, "table {SPIFOPT_OPTION('o', \"old\", %s | DEPRECATED%s)}: prog [-o] [7] [word] in a %s pass", k >> 2 ? "STRING" : "INTEGER", k & 1 ? " | PREPARSE" : "", (k >> 1) & 1 ? "pre-parse" : "normal"); return; } if (idx >= 84) { snprintf(b, n, "table {BOOL('\\xe9', mask 0x80000004) on an unsigned long whose upper half holds 0x5a5a5a5a}: prog [--eacute=%s]", idx == 84 ? "no" : "yes"); return; } snprintf(b, n, "table {BOOL('\\xe9'), INT('\\x80')}: prog [-%s]%s", (idx - 80) % 2 ? "\\x80] [7" : "\\xe9", (idx - 80) / 2 ? " with remove-args" : ""); return; } snprintf(b, n, "one-entry table built with %s: fields, then prog [%s] in a %s pass", DM[idx / 4], (idx / 2) % 2 ? "-o 1" : "--opt=1", idx % 2 ? "pre-parse" : "normal"); }
+static void d_desc(uint64_t idx, void *ctx, char *b, size_t n) { (void) ctx; if (idx >= 80) { if (idx >= 94) { snprintf(b, n, "table {STR('o', \"opt\")}: prog [%s] [first], then in the same process prog [%s] [second]; the first value is kept by the program", idx == 94 ? "-o" : "--opt", idx == 94 ? "-o" : "--opt"); return; } if (idx >= 86) { uint64_t k = idx - 86; snprintf(b, n, "table {SPIFOPT_OPTION('o', \"old\", %s | DEPRECATED%s)}: prog [-o] [7] [word] in a %s pass", k >> 2 ? "STRING" : "INTEGER", k & 1 ? " | PREPARSE" : "", (k >> 1) & 1 ? "pre-parse" : "normal"); return; } if (idx >= 84) { snprintf(b, n, "table {BOOL('\\xe9', mask 0x80000004) on an unsigned long whose upper half holds 0x5a5a5a5a}: prog [--eacute=%s]", idx == 84 ? "no" : "yes"); return; } snprintf(b, n, "table {BOOL('\\xe9'), INT('\\x80')}: prog [-%s]%s", (idx - 80) % 2 ? "\\x80] [7" : "\\xe9", (idx - 80) / 2 ? " with remove-args" : ""); return; } snprintf(b, n, "one-entry table built with %s: fields, then prog [%s] in a %s pass", DM[idx / 4], (idx / 2) % 2 ? "-o 1" : "--opt=1", idx % 2 ? "pre-parse" : "normal"); }
 /* short letters above 0x7f (a table is free to use any byte as a letter) */
 static void d_highbit(uint64_t k)
 {
@@ -376,8 +376,32 @@ static void d_deprecated(uint64_t k)
     free(argv);
     mc_nontrivial();
 }
+/* a second parse in the same process: what the first one handed over (a string the program keeps) is the program's, the parser allocates afresh */
+static void d_second_parse(uint64_t k)
+{
+    static spifopt_t one[2]; const char *shape = "second parse in one process"; mc_set_shape(shape);
+    spifopt_t t[2] = { SPIFOPT_STR('o', "opt", "d", d_str), SPIFOPT_INT('n', "num", "d", d_int) };
+    one[0] = t[0]; one[1] = t[1];
+    d_str = NULL; d_int = 0;
+    char *kept = NULL;
+    for (int round = 0; round < 2; round++) {
+        char *orig[4]; int ac = 0; orig[ac++] = mc_heapstr("prog"); orig[ac++] = mc_heapstr(k ? "--opt" : "-o"); orig[ac++] = mc_heapstr(round ? "second" : "first");
+        char **argv = malloc(sizeof(char *) * (size_t) (ac + 1)); memcpy(argv, orig, sizeof(char *) * (size_t) ac); argv[ac] = NULL;
+        SPIFOPT_OPTLIST_SET(one); SPIFOPT_NUMOPTS_SET(2); SPIFOPT_ALLOWBAD_SET(9); SPIFOPT_BADOPTS_SET(0); SPIFOPT_HELPHANDLER_SET(help_stub);
+        spifopt_settings.flags = 0;
+        spifopt_parse(ac, argv);
+        if (!d_str || strcmp(d_str, round ? "second" : "first")) FAIL("spifopt_parse", "model:string", shape, "after parse %d the string option holds %s", round + 1, d_str ? d_str : "NULL");
+        if (!round) kept = (char *) d_str;            /* the program keeps the first value (and does not reset its variable) */
+        for (int i = 0; i < ac; i++) free(orig[i]);
+        free(argv);
+    }
+    if (kept) { if (strcmp(kept, "first")) FAIL("spifopt_parse", "model:earlier-value-changed", shape, "the string handed over by the first parse reads \"%.20s\" after the second", kept); if (kept != (char *) d_str) FREE(kept); }
+    if (d_str) { FREE(d_str); d_str = NULL; }
+    mc_nontrivial();
+}
 static void d_case(uint64_t idx, void *ctx)
 {
+    if (idx >= 94) { (void) ctx; d_second_parse(idx - 94); return; }
     if (idx >= 86) { (void) ctx; d_deprecated(idx - 86); return; }
     if (idx >= 80) { (void) ctx; d_highbit(idx - 80); return; }
     int mi = (int) (idx / 4), shortform = (int) ((idx / 2) % 2), pp_pass = (int) (idx % 2), kind = mi / 4, variant = mi % 4; (void) ctx;
@@ -450,7 +474,7 @@ int main(int argc, char **argv)
     for (g_k = 0; g_k <= K; g_k++) if (!mc_e2_level("wellformed", g_k, lines_of(g_k), a_case, a_desc, NULL)) break;
     for (g_k = 0; g_k <= N; g_k++) if (!mc_e2_level("hostile", g_k, mc_words_of_len(NTOK, g_k) * 4, b_case, b_desc, NULL)) break;
     mc_e2_level("bundles", 1, (uint64_t) NBUN * 8, c_case, c_desc, NULL);
-    mc_e2_level("constructors", 1, 20 * 4 + 6 + 8, d_case, d_desc, NULL);
+    mc_e2_level("constructors", 1, 20 * 4 + 6 + 8 + 2, d_case, d_desc, NULL);
     mc_e2_level("long_argument_lists", 70000, (uint64_t) NLONGL * 3, e_case, e_desc, NULL);
     return mc_finish();
 }
